@@ -363,6 +363,11 @@ func cmdCheck(args []string) int {
 			items[i].Res = retry[j].Res
 		}
 	}
+	crossRerun, crossConfirmed, crossRefuted := 0, 0, 0
+	if *tier == "thorough" {
+		crossRerun, crossConfirmed, crossRefuted = crossCheck(items, 20, seed, 8)
+		fmt.Printf("thorough: %d discharged obligations re-run on the other solvers: %d confirmed by a second solver, %d refuted\n", crossRerun, crossConfirmed, crossRefuted)
+	}
 	sort.SliceStable(items, func(i, j int) bool { return items[i].Obl.Name < items[j].Obl.Name })
 
 	// ---- verdicts
@@ -464,6 +469,24 @@ func cmdCheck(args []string) int {
 		}
 		inLedger := ledger != nil && ledger.byName[o.Name] != nil && (ledger.byName[o.Name].Status == "proved" || strings.HasPrefix(ledger.byName[o.Name].Status, "known-finding"))
 		completeFn := ledger != nil && ledger.Functions[o.Func].Complete
+		// A contract clause of this function that no longer binds to the code (a local variable it names was renamed,
+		// a loop it annotates is gone) removes assumptions the proofs of the function relied on: what then fails is
+		// undecided, not a violation.  (A clause that demands a call the function no longer makes is different and is
+		// reported below.)
+		if ledger != nil {
+			stale := ""
+			for _, u := range unbound {
+				if strings.HasPrefix(u, o.Func+":") && !strings.Contains(u, "no call to ") {
+					stale = u
+				}
+			}
+			if stale != "" {
+				fmt.Printf("UNDECIDED %s (%s; a contract clause of the function does not bind to the current code: %s)\n", o.Name, it.Res.Status, truncate(stale, 160))
+				undecided = append(undecided, o.Name+" (stale contract)")
+				claimed--
+				continue
+			}
+		}
 		if ledger == nil || inLedger || completeFn {
 			violations++
 			reason := "obligation not discharged (" + it.Res.Status + ")"
@@ -565,7 +588,7 @@ func cmdCheck(args []string) int {
 	}
 	cov := map[string]interface{}{
 		"obligations": claimed, "discharged": discharged,
-		"checker_cmd":  "bin/govc check " + id + " --tier " + *tier,
+		"checker_cmd":  "./govc check " + id + " --tier " + *tier,
 		"trusted_base": []string{"govc VC generator (this repository, /verif/engine)", "go/packages + go/ssa v0.29.0", "z3 4.8.12 / z3 5.1.0 / cvc5 1.0 (portfolio: unsat from any, sat from none)"},
 		"functions_under_contract": keys, "per_obligation": perObl, "samples": samples,
 		"cover_obligations": covers, "cover_confirmed_sat": coversConfirmed,
@@ -574,6 +597,9 @@ func cmdCheck(args []string) int {
 	}
 	if expl != "" {
 		cov["explanation"] = expl
+	}
+	if *tier == "thorough" {
+		cov["cross_check"] = map[string]int{"rerun_on_other_solvers": crossRerun, "confirmed_by_second_solver": crossConfirmed, "refuted": crossRefuted}
 	}
 	p.addBounded(id, *tier, cov, &violations)
 	ev := evidence{PropertyID: id, Tier: *tier, Seed: seed, Level: level, Coverage: cov, Assumptions: as, WallS: time.Since(start).Seconds(), Violations: violations}
